@@ -572,6 +572,19 @@ for spec in specs:
     if env.get('regions_bits_rep', 'unbound') != want_bits or env.get('n_regions', 'unbound') != want_n:
         res = {'confirmed': True, 'input': {'job_specs': specs, 'mapping': mapping}, 'what': 'job %d: stored regions_bits_rep=%r n_regions=%r, its own spec gives %r / %r' % (spec['job_id'], env.get('regions_bits_rep'), env.get('n_regions'), want_bits, want_n)}
         break
+if not res['confirmed']:
+    # a region that is not a key of the mapping, and an empty selection, are rejected with 400 before anything is encoded
+    for bad in (['us-east1', 'mars-north1'], []):
+        env['spec'] = {'job_id': 9, 'regions': bad}
+        try:
+            exec(compile(ast.Module(body=frag, type_ignores=[]), 'front_end-fragment', 'exec'), env)
+            res = {'confirmed': True, 'input': {'spec': env['spec'], 'mapping': mapping}, 'what': 'regions %r accepted: stored regions_bits_rep=%r n_regions=%r' % (bad, env.get('regions_bits_rep'), env.get('n_regions'))}
+            break
+        except HTTPBadRequest:
+            pass
+        except Exception as e:
+            res = {'confirmed': True, 'input': {'spec': env['spec'], 'mapping': mapping}, 'what': 'regions %r are not rejected with HTTPBadRequest but reach the encoder: %r' % (bad, e)}
+            break
 print(json.dumps(res))
 '''
 
